@@ -29,6 +29,8 @@ only = set(sys.argv[1:])
 for sp in specs.SPECS:
   if only and sp['name'] not in only:
     continue
+  if sp.get('skip'):
+    continue
   subprocess.check_call(['git', '-C', WORK, 'checkout', '-q', '--', '.'])
   p = os.path.join(WORK, sp['file'])
   s = open(p).read()
